@@ -34,7 +34,7 @@ def findB : Bytes → Option (Bytes × Bytes)
     regenerated line by line with CRLF endings, the payload is kept as it is. -/
 def parseFlatten (d : Bytes) : Bytes × Bytes :=
   match findB d with
-  | none => (normCRLF d, [])
+  | none => (normCRLF d ++ [13, 10], [])     -- a header block and nothing else: the generator closes it with a blank line
   | some (hd, payload) => (normCRLF hd, payload)
 
 /-- One physical line without its terminator; `none` at the end. -/
